@@ -28,6 +28,10 @@ func init() {
 
 var durableFiles = []string{"server.keys", "gcaPubKey.dat", "equipment-authorizations.dat", "allDeviceStats.dat", "equipment-reports.dat"}
 
+// recordLogs are the durable files that accumulate one record per accepted
+// fact; every writer of such a file must leave the existing records in place.
+var recordLogs = map[string]bool{"equipment-authorizations.dat": true, "allDeviceStats.dat": true, "equipment-reports.dat": true}
+
 func isDurable(f string) bool {
 	for _, d := range durableFiles {
 		if d == f {
@@ -116,6 +120,10 @@ func runC05(c *an.Ctx) {
 			case "create-empty":
 				c.Check(construction[fn], "PROTOCOL", fn, fn.Pos(), key, file+" is created empty only during construction, when it does not exist", "writer protocol create-empty")
 			case "create-then-write", "truncate-then-write":
+				if recordLogs[file] {
+					c.Violated("PROTOCOL", fn, fn.Pos(), key, file+" is a record log but "+an.FuncName(fn)+" writes it by "+proto+": every earlier record is destroyed by the write (and a crash between the two steps leaves an empty log)", "writer protocol "+proto)
+					continue
+				}
 				exposesEmpty = true
 				c.Proved("PROTOCOL", fn, fn.Pos(), key, file+" is written by "+proto+": a crash between the two steps leaves an EMPTY file, which the loader must treat like an absent one", "writer protocol "+proto)
 			default:
